@@ -70,7 +70,10 @@ func (rw *RollingWindow) Reduce(fn func(b *Bucket)) {
 }
 
 func (rw *RollingWindow) updateOffset() {
-	span := rw.span()
+	// 只读一次时钟：跨度与对齐必须基于同一时刻，否则两次读取之间恰好跨过桶边界时，
+	// lastTime 会比 offset 多前进一个间隔，旧值随之多存活一个桶
+	now := timex.Now()
+	span := rw.spanSince(now)
 	if span <= 0 {
 		return
 	}
@@ -82,13 +85,16 @@ func (rw *RollingWindow) updateOffset() {
 	}
 
 	rw.offset = (offset + span) % rw.size
-	now := timex.Now()
 	//对齐间隔时间边界
 	rw.lastTime = now - (now-rw.lastTime)%rw.interval
 }
 
 func (rw *RollingWindow) span() int {
-	offset := int(timex.Since(rw.lastTime) / rw.interval)
+	return rw.spanSince(timex.Now())
+}
+
+func (rw *RollingWindow) spanSince(now time.Duration) int {
+	offset := int((now - rw.lastTime) / rw.interval)
 	if 0 <= offset && offset < rw.size {
 		return offset
 	}
